@@ -583,13 +583,16 @@ class HierarchicalAsyncMachine(HierarchicalMachine, AsyncMachine):
             _state_tree = self.build_state_tree(listify(getattr(model, self.model_attribute)),
                                                 self.state_cls.separator)
         res = {}
+        offered = False
         for key, value in _state_tree.items():
             if value:
                 with self(key):
                     tmp = await self._trigger_event_nested(event_data, _trigger, value)
                     if tmp is not None:
                         res[key] = tmp
-            if not res.get(key, None) and _trigger in self.events:
+            # trigger_nested visits every active state of this scope: offer the event to the scope only once
+            if not res.get(key, None) and _trigger in self.events and not offered:
+                offered = True
                 tmp = await self.events[_trigger].trigger_nested(event_data)
                 if tmp is not None:
                     res[key] = tmp
